@@ -15,7 +15,12 @@ n=$(go test -count=1 -json ./... 2>/dev/null | grep -c '"Action":"pass","Package
 f=$(go test -count=1 -json ./... 2>/dev/null | grep -c '"Action":"fail","Package":"[^"]*","Test"')
 if [ "$f" = "0" ] && [ "$n" -ge 413 ]; then suite=yes; fi
 DDIR=.
-if grep -q '^package zhttp' $OUT/demo_test.go; then DDIR=./zhttp; fi
+PKG=$(grep -m1 '^package ' $OUT/demo_test.go | awk '{print $2}' | sed 's/_test$//')
+case "$PKG" in
+  zog) DDIR=. ;;
+  zjson) DDIR=./parsers/zjson ;;
+  *) if [ -d "./$PKG" ]; then DDIR=./$PKG; fi ;;
+esac
 RACE=""
 if grep -q -- '-race' $OUT/README.md 2>/dev/null; then RACE="-race"; fi
 cp $OUT/demo_test.go $DDIR/zz_seeded_demo_test.go
